@@ -779,13 +779,15 @@ func (b *Builder) peerPlan() stepPlan {
 	if p := b.planPromotePeer(); !p.IsEmpty() {
 		return p
 	}
-	if p := b.planDemotePeer(); !p.IsEmpty() {
-		return p
-	}
 	if p := b.planRemovePeer(); !p.IsEmpty() {
 		return p
 	}
 	if p := b.planAddPeer(); !p.IsEmpty() {
+		return p
+	}
+	// Demote goes last: demoting a voter while another voter is still to be added would let the
+	// voter count fall below both the original and the requested one.
+	if p := b.planDemotePeer(); !p.IsEmpty() {
 		return p
 	}
 	return stepPlan{}
